@@ -121,6 +121,20 @@ def means(ctx, m):
             ctx.record('C10:%s:kind' % nm, 'M', 'held', bound='structural', sample={'obligation': '%s: result kind == confidence kind on every Ok path' % nm})
         else:
             m.violated_structurally('C10:%s:kind' % nm, 'C10:%s:kind' % nm, 'a %s Ok path returns an interval of the wrong kind (or a kind has no Ok path)' % nm)
+    # the reported point estimate of the wrappers is the back-transform of the SAME arithmetic-mean term the interval is built around
+    # (term identity): a degenerate interval (constant sample) then contains it bit for bit, which real arithmetic cannot see
+    fam = m.fn('sample_mean', 'Arithmetic', 'inherent')
+    ref, extra = E.self_ref(E.arith())
+    am = [r for r in m.run(fam, [ref], extra) if r.kind == 'return']
+    for ty, back in (('Geometric', lambda t: T.mk('exp', t)), ('Harmonic', lambda t: T.mk('fdiv', T.fconst(1), t))):
+        f = m.fn('sample_mean', ty, 'inherent')
+        ref, extra = E.self_ref(('adt', ty, 0, [E.arith()]))
+        r = [x for x in m.run(f, [ref], extra) if x.kind == 'return']
+        name = 'C10:point-estimate:%s' % ty.lower()
+        if len(r) == 1 and len(am) == 1 and r[0].value == ('f', back(am[0].value[1])):
+            ctx.record(name, 'M', 'held', bound='syntactic', sample={'obligation': '%s::sample_mean is the back-transform of the arithmetic mean term the interval is centred on' % ty, 'verdict': 'same terms'})
+        else:
+            m.violated_structurally(name, 'C10:point-estimate', '%s::sample_mean is not computed from the same arithmetic-mean term as the interval: a degenerate interval need not contain it' % ty)
     m.collect()
 
 
